@@ -14,7 +14,7 @@ RULE = ('exhaustive: lists of 1..4 (quick) / 1..6 (thorough) references x every 
         'scheduled, mirrored schedule, scheduled) with the earlier models discarded and collected. distinct = (names, schedule); non-trivial = the provider log shows a '
         'resolution order different from the textual order')
 REQUIRED = {'lists_checked': 200, 'schedules_with_reordered_resolution': 20, 'postponed_answers': 100,
-            'history_loads_one_metamodel': 200, 'touching_reference_lists': 200}
+            'history_loads_one_metamodel': 200, 'touching_reference_lists': 200, 'loads_with_textx_tools_support': 200}
 
 GRAMMAR = '''
 Model: imports*=Import defs*=Def lists+=L;
@@ -75,7 +75,7 @@ def build(names_lists, tight=False):
     return text, layout
 
 
-def make_mm(ctx, tight=False):
+def make_mm(ctx, tight=False, tools=False):
     """a metamodel whose provider follows the schedule currently stored in state['left']"""
     from textx import metamodel_from_str
     from textx.scoping import Postponed
@@ -93,15 +93,17 @@ def make_mm(ctx, tight=False):
         state['log'].append(('R', pos))
         return inner(obj, attr, obj_ref)
 
-    mm = metamodel_from_str(GRAMMAR_TIGHT if tight else GRAMMAR)
+    mm = metamodel_from_str(GRAMMAR_TIGHT if tight else GRAMMAR, textx_tools_support=tools)
+    if tools:
+        ctx.count('loads_with_textx_tools_support')
     mm.register_scope_providers({'*.*': provider})
     return mm, state
 
 
-def load(ctx, text, schedule, rep, files=None, mm_state=None, tight=False):
+def load(ctx, text, schedule, rep, files=None, mm_state=None, tight=False, tools=False):
     """schedule: dict position -> number of Postponed answers. Returns (model, log) or (None, log)."""
     from textx import TextXError
-    mm, state = mm_state or make_mm(ctx, tight)
+    mm, state = mm_state or make_mm(ctx, tight, tools)
     state['left'] = dict(schedule)
     state['log'] = log = []
     try:
@@ -129,7 +131,7 @@ def history(ctx, names_lists, layout, text, schedule, rep, tight=False):
     """the same metamodel used for several loads, earlier models discarded (their memory is reused): a plain load, the
     scheduled load, a load with the schedule mirrored, the scheduled load again"""
     import gc
-    mm_state = make_mm(ctx, tight)
+    mm_state = make_mm(ctx, tight, (len(text) % 4) < 2)
     mx = max(schedule.values()) if schedule else 0
     mirrored = {p: mx - v for p, v in schedule.items()}
     if set(mirrored.values()) != set(range(mx + 1)):
@@ -161,7 +163,8 @@ def check(ctx, names_lists, sched_lists, rep, sample=False, tight=False):
         # that is "unresolvable", not a schedule a provider can impose on a resolvable model
         ctx.count('schedules_skipped_round_without_progress')
         return
-    m, log = load(ctx, text, schedule, rep, tight=tight)
+    tools = (len(text) + len(schedule)) % 2 == 1
+    m, log = load(ctx, text, schedule, rep, tight=tight, tools=tools)
     res_order = [p for k, p in log if k == 'R']
     reordered = False
     for pr, pm in layout:
